@@ -189,6 +189,25 @@ func H_C18_init() {
 	vrt.Assert("second element count", len(g) == numel(dims2))
 	checkDraws("second call", g, len(f), sp)
 	vrt.Assert("second call returns a new tensor", x != y)
+	// constructing further initializers must not disturb the stream the existing ones draw from
+	other, _, _ := buildInit(name)
+	_ = other
+	vrt.Assert("the library never re-seeds the global random source (draws stay fresh in any call order)", vrt.Reseeds() == 0)
+	if !vrt.Symbolic() && sp.kind != 0 {
+		a1, e1 := in.Init([]int{16})
+		buildInit(name) // another object of the same kind comes to life
+		a2, e2 := in.Init([]int{16})
+		if e1 == nil && e2 == nil && a1 != nil && a2 != nil {
+			f1, f2 := vrt.Flat(a1), vrt.Flat(a2)
+			same := 0
+			for k := range f1 {
+				if f1[k] == f2[k] {
+					same++
+				}
+			}
+			vrt.Assert("draws made after another initializer was constructed are fresh, not a replay", same < len(f1))
+		}
+	}
 	if !vrt.Symbolic() && sp.kind != 0 {
 		// draws are fresh on every call, whatever was drawn before: precede the large draw by odd-sized
 		// draws from far-away distributions of both families
